@@ -3,6 +3,7 @@ import Proofs.C12
 import Proofs.Lemmas.Attempt
 import Proofs.C13
 import Proofs.Lemmas.QueueM
+import Proofs.C11
 /-!
 # C01 — accepted mail is never lost: every recipient reaches a final disposition
 
@@ -191,5 +192,23 @@ example : ((QM.run true (QM.start [] (fun _ => []) (fun _ => true)) demoRun).map
     some ([12], [(11, 2), (10, 3)], [⟨2, [11], false⟩, ⟨3, [10], true⟩], [(1, [10], 1), (1, [10, 11, 12], 0)], none) := by rfl
 
 end composed
+
+/-! ## The relay contract is met by the relay models
+
+`accepted_never_lost` assumes that a relay answers for exactly the recipients it was handed (`CompleteOutcome`, the hypothesis in
+`QM.calm`). For the built-in relays this is a theorem of C11 (`attempt_answers_everyone`, `pipe_answers_everyone`,
+`http_answers_everyone`): a per-recipient result has one entry per recipient, in order; and a result of the right length over
+distinct recipients is complete (`sequence_complete`). -/
+
+def toRRes (rp : ReplyId) : Relay.Cls → RRes
+  | .ok => .ok
+  | .perm => .perm rp
+  | .temp => .temp rp
+
+theorem relay_contract_met (cfg : Relay.Cfg) (s : Relay.Script) (l : List Relay.Cls) (h : Relay.attempt cfg s = .table l)
+    (m : Msg) (hn : m.rcpts.Nodup) (hs : s.rcpts.length = m.rcpts.length) (rp : ReplyId) :
+    CompleteOutcome m (.sequence (l.map (toRRes rp))) :=
+  sequence_complete m hn _ (by rw [List.length_map, C11.attempt_answers_everyone cfg s l h, hs])
+
 
 end Slimta.C01
